@@ -19,9 +19,21 @@
 #include <random>
 #include <string>
 #include <unistd.h>
+#include <csignal>
+#include <cstring>
 #include "hexsim.hpp"
 #include "safe.hpp"
+#include "progen.hpp"
 
+
+// the case being executed, printed by the SIGSEGV/SIGBUS handler: a crash inside hexsim while it executes
+// a step the recorder considered in range is reported (x = 2), and TLC decides whether HexISA defines it
+static char g_current[512];
+static int g_outfd = -1;
+static void on_crash(int) {
+  if (g_outfd >= 0 && g_current[0]) { ssize_t r = write(g_outfd, g_current, strlen(g_current)); (void)r; }
+  _exit(4);
+}
 
 static void jarr(FILE *f, const std::vector<std::pair<u32, u32>> &v) {
   fputc('[', f);
@@ -46,6 +58,7 @@ template <class R, size_t N> static u32 pick(R &rng, const u32 (&arr)[N]) { retu
 // ---------------------------------------------------------------------------------------------
 static int grid(int argc, char **argv) {
   unsigned seed = atoi(argv[2]); long per = atol(argv[3]); FILE *out = fopen(argv[4], "w");
+  g_outfd = fileno(out); signal(SIGSEGV, on_crash); signal(SIGBUS, on_crash);
   std::string dir = argv[5];
   if (chdir(dir.c_str()) != 0) return 2;
   std::mt19937 rng(seed * 7919u + 17);
@@ -84,6 +97,9 @@ static int grid(int argc, char **argv) {
       std::vector<std::pair<u32, u32>> pre = {{iw, mem[iw]}};
       if (s.mm && s.addr != iw) pre.push_back({s.addr, mem[s.addr]});
       u32 w0 = mem[iw], d0 = s.mm ? mem[s.addr] : 0;
+      fflush(out);
+      snprintf(g_current, sizeof g_current, "{\"i\":%d,\"pre\":[%d,%d,%d,%d],\"m\":[[%d,%d]%s],\"in\":[],\"x\":2}\n", ins, (int)pc, (int)a, (int)b, (int)o, (int)iw,
+               (int)mem[iw], (s.mm && s.addr != iw) ? (std::string(",[") + std::to_string((int)s.addr) + "," + std::to_string((int)mem[s.addr]) + "]").c_str() : "");
       P->verifSetState({pc, a, b, o});
       bool thrown = false;
       try { P->run(); } catch (std::exception &) { thrown = true; }
@@ -235,64 +251,14 @@ static int run_bin(int argc, char **argv) {
   return 0;
 }
 
-// prefix-chain encoder of the harness's own (never hexasm's): emits op with operand v
-static void enc(std::vector<unsigned char> &t, u32 op, u32 v) {
-  std::vector<unsigned char> rev;
-  rev.push_back((op << 4) | (v & 15));
-  int32_t r = (int32_t)v >> 4;
-  // positive: PFIX digits until 0; negative: PFIX digits until all ones then NFIX
-  if ((int32_t)v >= 0) { while (r != 0) { rev.push_back(0xE0 | (r & 15)); r >>= 4; } }
-  else { while (r < -16) { rev.push_back(0xE0 | (r & 15)); r >>= 4; } rev.push_back(0xF0 | (r & 15)); }
-  for (size_t i = rev.size(); i-- > 0;) t.push_back(rev[i]);
-}
-
 static int run_rand(int argc, char **argv) {
   unsigned seed = atoi(argv[2]); long count = atol(argv[3]), maxsteps = atol(argv[4]);
   FILE *out = fopen(argv[5], "w");
   if (chdir(argv[6]) != 0) return 2;
   std::mt19937 rng(seed * 104729u + 5);
-  static const u32 VALS[] = {0, 1, 2, 15, 16, 17, 255, 256, 4095, 4096, 65535, 65536, 0x7FFFFFFF, 0x80000000u, 0xFFFFFFFFu,
-                             0xFFFFFFF0u, 0xFFFFFFEFu, 0xFFFFFF00u, 0xFFFFFEFFu, 0xFFFF0000u, 12345, 0xFFFFCFC7u, 100, 0x80000001u};
   for (long c = 0; c < count; c++) {
-    size_t target = 24 + rng() % 200;          // code bytes
-    u32 dataw = 2 + (target + 80) / 4;         // first data word (well past the code)
-    u32 ndata = 24;
-    u32 sp = dataw + ndata + 4 + rng() % 8;
-    std::vector<unsigned char> t;
-    t.push_back(0x97); t.push_back(0); t.push_back(0); t.push_back(0);   // BR 7 -> byte 8
-    for (int l = 0; l < 4; l++) t.push_back((sp >> (8 * l)) & 0xFF);     // word 1 = stack pointer
-    auto val = [&]() -> u32 { return (rng() % 3 == 0) ? (u32)rng() : VALS[rng() % (sizeof(VALS) / 4)]; };
-    auto daddr = [&]() -> u32 { return dataw + rng() % ndata; };
-    while (t.size() < 8 + target) {
-      u32 r = rng() % 100;
-      if (r < 18) enc(t, 3 + rng() % 2, val());
-      else if (r < 30) enc(t, rng() % 3, daddr());
-      else if (r < 36) { enc(t, 3, daddr() - (rng() % 4)); enc(t, 6, rng() % 4); }
-      else if (r < 42) { enc(t, 4, daddr() + (rng() % 4)); enc(t, 7 + rng() % 2, (u32)(-(int)(rng() % 4))); }
-      else if (r < 54) t.push_back(0xD1 + rng() % 2);
-      else if (r < 66) enc(t, 9 + rng() % 3, rng() % 7);
-      else if (r < 69) { u32 back = 2 + rng() % 12; enc(t, 10 + rng() % 2, (u32)(-(int)back)); }
-      else if (r < 74) enc(t, 5, (rng() % 2) ? rng() % 40 : (u32)(-(int)(rng() % 40)));
-      else if (r < 82) { // write: byte, stream
-        static const u32 ST[] = {0, 0, 0, 255, 768, 512, 0x7FF, 0xFFFFFFFFu, 1024};
-        enc(t, 3, val()); enc(t, 1, 1); enc(t, 8, 2); enc(t, 3, ST[rng() % 9]); enc(t, 8, 3); enc(t, 3, 1); t.push_back(0xD3);
-      } else if (r < 88) { // read then load the result
-        enc(t, 3, (rng() % 4) ? 0 : 256); enc(t, 1, 1); enc(t, 8, 2); enc(t, 3, 2); t.push_back(0xD3); enc(t, 1, 1); enc(t, 7, 1);
-      } else if (r < 91) { enc(t, 4, 8 + rng() % target); t.push_back(0xD0); }
-      else if (r < 93) { enc(t, 3, val()); enc(t, 1, 1); enc(t, 8, 2); enc(t, 3, 0); t.push_back(0xD3); }
-      else if (r < 95) { enc(t, 3, sp + (rng() % 3) - 1); enc(t, 2, 1); }       // move the stack pointer a little
-      else if (r < 97) t.push_back(rng() % 256);
-      else enc(t, 14 + rng() % 2, rng() % 16);
-    }
-    enc(t, 3, val()); enc(t, 1, 1); enc(t, 8, 2); enc(t, 3, 0); t.push_back(0xD3);
-    while (t.size() % 4) t.push_back(0);
-    std::vector<u32> img(sp + 8, 0);
-    for (size_t i = 0; i < t.size(); i++) img[i / 4] |= (u32)t[i] << (8 * (i % 4));
-    for (u32 w = dataw; w < dataw + ndata; w++) img[w] = (rng() % 2) ? val() : 0;
-    std::string input;
-    size_t il = rng() % 5;
-    for (size_t q = 0; q < il; q++) input += (char)(rng() % 256);
-    emit_run(out, "rand" + std::to_string(seed) + "_" + std::to_string(c), img, input, maxsteps, "");
+    GenProg g = gen_program(rng);
+    emit_run(out, "rand" + std::to_string(seed) + "_" + std::to_string(c), g.img, g.input, maxsteps, "");
   }
   fclose(out);
   return 0;
